@@ -14,19 +14,19 @@ def handle : Handler := fun op j =>
   | "types.name" => run fun tbl => do pure (Json.str (getName (← tyAt tbl j "s")))
   | "types.has_tv" => run fun tbl => do pure (Json.bool (hasTV (← tyAt tbl j "s")))
   | "types.subst" => run fun tbl => do
-      pure (tyToJson (substituteType (← tyAt tbl j "s") (← parseTMap tbl j "m")))
+      pure (answerTy tbl j (substituteType (← tyAt tbl j "s") (← parseTMap tbl j "m")))
   | "types.new" => run fun tbl => do
       let con ← tyAt tbl j "s"
       let args ← tyListAt tbl j "args"
       if args.length < (conParams con).length then pure (Json.str "IndexError")
       else if args.length > (conParams con).length then pure (Json.str "AssertionError")
-      else pure (tyToJson (tconNew con args))
+      else pure (answerTy tbl j (tconNew con args))
   | "types.to_variance_free" => run fun tbl => do
-      pure (tyToJson (toVarianceFree (← tyAt tbl j "s") (← parseTMap tbl j "m")))
+      pure (answerTy tbl j (toVarianceFree (← tyAt tbl j "s") (← parseTMap tbl j "m")))
   | "types.to_type_variable_free" => run fun tbl => do
-      pure (trToJson tyToJson (toTypeVariableFree (← tyAt tbl j "s") (← tyOptAt tbl j "any")))
+      pure (trToJson (answerTy tbl j) (toTypeVariableFree (← tyAt tbl j "s") (← tyOptAt tbl j "any")))
   | "types.bound_rec" => run fun tbl => do
-      pure (trToJson tyOptToJson (getBoundRec (← tyAt tbl j "s") (← tyOptAt tbl j "any")))
+      pure (trToJson (answerTyOpt tbl j) (getBoundRec (← tyAt tbl j "s") (← tyOptAt tbl j "any")))
   | _ => none
 
 end Driver.Types
